@@ -233,6 +233,7 @@ Definition huge_expansion (what a b : N) : bool :=
   match what with
   | 1 => (a <=? b) && (131072 <? b - a + 1)
   | 2 | 3 => (1 <=? a) && (a <? 15)
+  | 4 => 131072 <? a                    (* the sum over all expansions of the document *)
   | _ => false
   end.
 Definition check_screened (ts : list N) : list N :=
